@@ -68,7 +68,7 @@ CHECKS = {
   technique="TLA+ spec (Bac.tla, Mrz.tla) with TLC; scenarios replayed into bac.DoBAC against an independent chip"),
  "C04": dict(
   category="model_checking",
-  text="Pace.tla models PACE-GM / -CAM with symbolic Diffie-Hellman and 17 deviations (other password, altered nonce / mapping key / agreement key / token / chip authentication data, chip authentication data left out, echoed keys, a password-less counterpart reflecting the terminal's agreement key AND token, error status at each step, foreign static key); the design without the comparison of the two agreement keys must yield the reflection counterexample; TLC checks Completeness, FailClosed, CamGated, Agreement, StatusFails and the selection rule over all subsets of advertised infos. Binding: real pace.DoPACE against the chip simulator over parameter ids 8..18 x GM 3DES/AES-128/192/256 and CAM AES x MRZ / CAN passwords, shared secrets with a leading zero octet FORCED by the chip choosing its scalar after seeing the terminal's key, every deviation in several concrete forms (other valid point, bit flip, truncation, empty, 00), and CardAccess files advertising supported entries among DH / IM / unknown ones in three entry orders (the file is a SET).",
+  text="Pace.tla models PACE-GM / -CAM with symbolic Diffie-Hellman and 17 deviations (other password, altered nonce / mapping key / agreement key / token / chip authentication data, chip authentication data left out, echoed keys, a password-less counterpart reflecting the terminal's agreement key AND token, error status at each step, foreign static key); scenarios carry up to two compatible deviations at once (224 scenarios), so the reflection attack is FOUND by TLC as the pair {echoed agreement key, echoed token} when the design omits the comparison of the two agreement keys (MC_Pace_noecho must violate FailClosed), not written in by hand; TLC checks Completeness, FailClosed, CamGated, Agreement, StatusFails and the selection rule over all subsets of advertised infos. Binding: real pace.DoPACE against the chip simulator over parameter ids 8..18 x GM 3DES/AES-128/192/256 and CAM AES x MRZ / CAN passwords, shared secrets with a leading zero octet FORCED by the chip choosing its scalar after seeing the terminal's key, every deviation in several concrete forms (other valid point, bit flip, truncation, empty, 00), and CardAccess files advertising supported entries among DH / IM / unknown ones in three entry orders (the file is a SET).",
   design_ref="DESIGN.md §6 C04",
   note="Chip side is harness/chipsim (checked against 9303-11 Appendix G); a PACEInfo with a supported OID but RFU parameter id is outside the selection clause.",
   technique="TLA+ spec (Pace.tla) with TLC; scenario x concrete matrix replayed into pace.DoPACE against an independent chip with forced edge slices"),
